@@ -18,14 +18,21 @@ package peer
 //                         flight; ReconnectAll.  Logged as a trace of the same spec + direct timing assertions.
 
 import (
+	"bufio"
+	"context"
+	"encoding/json"
 	"errors"
 	"fmt"
+	mrand "math/rand"
+	"os"
 	"sort"
 	"sync"
 	"sync/atomic"
 	"testing"
 	"time"
 
+	"github.com/postalsys/muti-metroo/internal/identity"
+	"github.com/postalsys/muti-metroo/internal/transport"
 	"github.com/postalsys/muti-metroo/internal/verifhook"
 )
 
@@ -74,7 +81,8 @@ type zzvRcPath struct {
 	Steps []zzvRcStep `json:"steps"`
 }
 
-type zzvRcIn struct {
+type zzvRcIn struct { // one bounded model (one TLC run) and its path cover
+	Name        string      `json:"name"`
 	Addrs       []string    `json:"addrs"`
 	Cap         int         `json:"cap"`
 	MaxAttempts int         `json:"max_attempts"`
@@ -119,7 +127,6 @@ type zzvRcH struct {
 	exits   int
 	armedAt map[string]time.Time // when the action that armed the address's timer was issued
 	lastArm time.Time
-	onCallback func(a *zzvRcAttempt) // optional (manager scenario)
 }
 
 var zzvRcReg sync.Map // *Reconnector -> *zzvRcH
@@ -386,6 +393,11 @@ func zzvRcRunPath(in *zzvRcIn, path *zzvRcPath, obs *zzvRcObs) (mm *zzvRcMismatc
 			}
 			e := h.blocked[a.A][a.I-1]
 			h.blocked[a.A] = append(append([]*zzvRcEntry{}, h.blocked[a.A][:a.I-1]...), h.blocked[a.A][a.I:]...)
+			nBefore := h.project().Att[a.A]
+			armedWith := -1
+			if a.I <= len(spec.Gate[a.A]) {
+				armedWith = spec.Gate[a.A][a.I-1].D
+			}
 			exits := h.exits
 			h.newAtt = nil
 			close(e.release)
@@ -399,6 +411,13 @@ func zzvRcRunPath(in *zzvRcIn, path *zzvRcPath, obs *zzvRcObs) (mm *zzvRcMismatc
 				h.infl[a.A] = append(h.infl[a.A], at)
 				if at.paused {
 					return fail("begin-while-paused", si, st, "the callback was invoked while the reconnector was paused"), nil
+				}
+				want := nBefore
+				if want > in.Cap {
+					want = in.Cap
+				}
+				if armedWith >= 0 && armedWith != want {
+					return fail("backoff-order", si, st, fmt.Sprintf("consecutive attempt number %d was started by a timer armed with backoff index %d (must be %d)", nBefore, armedWith, want)), nil
 				}
 			} else {
 				res = "skip"
@@ -442,11 +461,7 @@ func zzvRcRunPath(in *zzvRcIn, path *zzvRcPath, obs *zzvRcObs) (mm *zzvRcMismatc
 				if extra <= len(st.T.Pend[ad]) {
 					return nil, errZzvDiverged
 				}
-				d := "a timer fired that the specification does not have"
-				if real.Paused {
-					d += " (armed or left running while paused)"
-				}
-				return fail("extra-timer", si, st, d), nil
+				return h.judgeExtra(ad, si, st, fail), nil
 			}
 			if extra < 0 {
 				return nil, fmt.Errorf("harness: lost a gate entry (step %d)", si)
@@ -502,17 +517,35 @@ func zzvRcRunPath(in *zzvRcIn, path *zzvRcPath, obs *zzvRcObs) (mm *zzvRcMismatc
 	h.drainNow()
 	for _, ad := range h.addrs {
 		if len(h.blocked[ad]) > want[ad] {
-			d := "after the end of the path a timer fired that the specification does not have"
-			if h.r.IsPaused() {
-				d += " (armed or left running while paused)"
-			}
-			return fail("extra-timer", len(path.Steps), last, d), nil
+			return h.judgeExtra(ad, len(path.Steps), last, fail), nil
 		}
 		if len(h.blocked[ad]) < want[ad] {
 			return fail("timer-missing", len(path.Steps), last, "a pending timer of the specification never fired"), nil
 		}
 	}
 	return nil, nil
+}
+
+// judgeExtra: a timer arrived that the specification does not have.  By itself that breaks nothing in the
+// statement; it does when the timer starts a connection attempt.  Release it and look.
+func (h *zzvRcH) judgeExtra(ad string, si int, st zzvRcStep, fail func(string, int, zzvRcStep, string) *zzvRcMismatch) *zzvRcMismatch {
+	n := len(h.blocked[ad])
+	e := h.blocked[ad][n-1]
+	h.blocked[ad] = h.blocked[ad][:n-1]
+	exits := h.exits
+	h.newAtt = nil
+	close(e.release)
+	h.pump(10*time.Second, func() bool { return h.newAtt != nil || h.exits > exits })
+	if h.newAtt == nil {
+		return fail("extra-timer-harmless", si, st, "a timer fired that the specification does not have; it started no attempt")
+	}
+	at := h.newAtt
+	h.newAtt = nil
+	h.infl[ad] = append(h.infl[ad], at)
+	if at.paused {
+		return fail("begin-while-paused", si, st, "a timer that the specification does not have (armed or left running while paused) fired and the callback was invoked while the reconnector was paused")
+	}
+	return fail("extra-attempt", si, st, "a second timer was pending for the address; it fired and started a connection attempt of its own")
 }
 
 type zzvRcObs struct {
@@ -529,15 +562,30 @@ func (o *zzvRcObs) addDelay(d int, w time.Duration) {
 }
 
 func TestZZVReconReplay(t *testing.T) {
-	var in zzvRcIn
-	zzvLoad(t, "ZZV_IN", &in)
+	var all struct {
+		Runs []zzvRcIn `json:"runs"`
+	}
+	zzvLoad(t, "ZZV_IN", &all)
+	if os.Getenv("ZZV_CORRUPT") == "replay" { // binding self-test: damage one expected state
+		p := &all.Runs[0].Paths[len(all.Runs[0].Paths)/2]
+		st := &p.Steps[len(p.Steps)/2]
+		st.T.Paused = !st.T.Paused
+	}
 	par := zzvEnvInt("ZZV_PAR", 24)
 	retries := zzvEnvInt("ZZV_RETRIES", 6)
 	confirm := zzvEnvInt("ZZV_CONFIRM", 3)
+	type job struct{ run, path int }
+	var jobs []job
+	for ri := range all.Runs {
+		for pi := range all.Runs[ri].Paths {
+			jobs = append(jobs, job{ri, pi})
+		}
+	}
 	obs := &zzvRcObs{delays: map[int][]time.Duration{}}
 	var mu sync.Mutex
 	var mism []map[string]any
 	var infra []string
+	var flakyKinds []string
 	diverged, flaky, retried := 0, 0, 0
 	var next int64 = -1
 	var wg sync.WaitGroup
@@ -546,16 +594,18 @@ func TestZZVReconReplay(t *testing.T) {
 		go func() {
 			defer wg.Done()
 			for {
-				pi := int(atomic.AddInt64(&next, 1))
-				if pi >= len(in.Paths) {
+				ji := int(atomic.AddInt64(&next, 1))
+				if ji >= len(jobs) {
 					return
 				}
+				in := &all.Runs[jobs[ji].run]
+				pi := jobs[ji].path
 				path := &in.Paths[pi]
 				var first *zzvRcMismatch
-				same, runs := 0, 0
+				same := 0
 				ok := false
 				for try := 0; try < retries+confirm; try++ {
-					mm, err := zzvRcRunPath(&in, path, obs)
+					mm, err := zzvRcRunPath(in, path, obs)
 					if err == errZzvDiverged {
 						mu.Lock()
 						retried++
@@ -564,24 +614,22 @@ func TestZZVReconReplay(t *testing.T) {
 					}
 					if err != nil {
 						mu.Lock()
-						infra = append(infra, fmt.Sprintf("path %d: %v", pi, err))
+						infra = append(infra, fmt.Sprintf("%s path %d: %v", in.Name, pi, err))
 						mu.Unlock()
 						ok = true
 						break
 					}
-					runs++
 					if mm == nil {
 						ok = true
 						if first != nil {
 							mu.Lock()
 							flaky++
+							flakyKinds = append(flakyKinds, fmt.Sprintf("%s/%s@%d", first.Kind, first.Act.Act, first.Step))
 							mu.Unlock()
 						}
 						break
 					}
-					if first == nil {
-						first, same = mm, 1
-					} else if mm.Kind == first.Kind && mm.Step == first.Step {
+					if first != nil && mm.Kind == first.Kind && mm.Step == first.Step {
 						same++
 					} else {
 						first, same = mm, 1
@@ -603,8 +651,8 @@ func TestZZVReconReplay(t *testing.T) {
 					for _, s := range pre {
 						acts = append(acts, s.A)
 					}
-					mism = append(mism, map[string]any{"path": pi, "kind": first.Kind, "step": first.Step, "a": first.Act, "spec_t": first.SpecT,
-						"real_t": first.Real, "detail": first.Detail, "reproduced": same, "prefix": acts})
+					mism = append(mism, map[string]any{"run": in.Name, "path": pi, "kind": first.Kind, "step": first.Step, "a": first.Act,
+						"spec_t": first.SpecT, "real_t": first.Real, "detail": first.Detail, "reproduced": same, "prefix": acts})
 				} else {
 					diverged++
 				}
@@ -613,7 +661,12 @@ func TestZZVReconReplay(t *testing.T) {
 		}()
 	}
 	wg.Wait()
-	sort.Slice(mism, func(i, j int) bool { return mism[i]["path"].(int) < mism[j]["path"].(int) })
+	sort.Slice(mism, func(i, j int) bool {
+		if mism[i]["run"].(string) != mism[j]["run"].(string) {
+			return mism[i]["run"].(string) < mism[j]["run"].(string)
+		}
+		return mism[i]["path"].(int) < mism[j]["path"].(int)
+	})
 	seenKind := map[string]int{}
 	for _, m := range mism {
 		k := fmt.Sprintf("%v/%v/%v", m["kind"], m["a"].(zzvRcAct).Act, m["a"].(zzvRcAct).Res)
@@ -622,13 +675,534 @@ func TestZZVReconReplay(t *testing.T) {
 			zzvEmit("mismatch", m)
 		}
 	}
-	// observed delays per backoff index (one-sided lower bound already asserted per step)
+	// observed delays per backoff index (the one-sided lower bound is asserted at every TimerFire step)
 	dl := map[string]any{}
 	for d, ws := range obs.delays {
 		sort.Slice(ws, func(i, j int) bool { return ws[i] < ws[j] })
 		dl[fmt.Sprint(d)] = map[string]any{"n": len(ws), "min_ms": float64(ws[0]) / 1e6, "median_ms": float64(ws[len(ws)/2]) / 1e6}
 	}
-	zzvEmit("summary", map[string]any{"paths": len(in.Paths), "steps": obs.steps, "mismatches": len(mism), "mismatch_kinds": seenKind,
-		"diverged": diverged, "retried": retried, "flaky": flaky, "infra": infra, "delays": dl})
+	zzvEmit("summary", map[string]any{"paths": len(jobs), "steps": obs.steps, "mismatches": len(mism), "mismatch_kinds": seenKind,
+		"diverged": diverged, "retried": retried, "flaky": flaky, "flaky_kinds": flakyKinds, "infra": infra, "delays": dl})
 }
 
+// ---- code -> spec: recorded executions ------------------------------------------------------------------------------
+
+type zzvRcLog struct{ lines []map[string]any }
+
+// put appends one event; every record has the same fields (TLC reads them unconditionally).
+func (lg *zzvRcLog) put(name string, f map[string]any, st map[string]any, cmp bool) {
+	ev := map[string]any{"ev": name, "a": "", "res": "", "i": 0, "j": 0, "ok": false, "cmp": cmp, "st": st}
+	for k, v := range f {
+		ev[k] = v
+	}
+	lg.lines = append(lg.lines, ev)
+}
+
+func zzvRcSt(p zzvRcReal) map[string]any {
+	return map[string]any{"paused": p.Paused, "closed": p.Closed, "ex": p.Ex, "att": p.Att, "idx": p.Idx, "gate": p.Gate, "infl": p.Infl}
+}
+
+func zzvRcWrite(t *testing.T, logs []*zzvRcLog) int {
+	f, err := os.Create(os.Getenv("ZZV_OUT"))
+	if err != nil {
+		t.Fatal(err)
+	}
+	w := bufio.NewWriter(f)
+	n := 0
+	for _, lg := range logs {
+		for _, l := range lg.lines {
+			b, _ := json.Marshal(l)
+			w.Write(b)
+			w.WriteByte('\n')
+			n++
+		}
+	}
+	w.Flush()
+	f.Close()
+	return n
+}
+
+// A real timer fires on its own; the recorded order of "timer fired" and a harness operation is only known when
+// the operation is issued clearly before the timer can fire or after it has arrived at the gate.  quiet() waits
+// until no address is inside that uncertain zone [armedAt + nominal*(1-jitter) - margin, arrival].
+type zzvRcClock struct {
+	h       *zzvRcH
+	pending map[string]bool // a timer may be pending for the address
+	idx     map[string]int  // backoff index it was armed with
+	seen    map[string]int  // arrivals already logged (released ones included)
+	gone    map[string]int  // gate entries released so far
+}
+
+func (c *zzvRcClock) armed(ad string, at time.Time, idx int) {
+	c.pending[ad], c.idx[ad] = true, idx
+	c.h.armedAt[ad] = at
+}
+
+// flush logs the timers that arrived since the last call (arrival order per address).
+func (c *zzvRcClock) flush(lg *zzvRcLog, early *[]map[string]any) {
+	h := c.h
+	h.drainNow()
+	for _, ad := range h.addrs {
+		total := c.gone[ad] + len(h.blocked[ad])
+		for c.seen[ad] < total {
+			e := h.blocked[ad][c.seen[ad]-c.gone[ad]]
+			c.seen[ad]++
+			if c.pending[ad] {
+				waited := e.at.Sub(h.armedAt[ad])
+				if waited < h.lower(c.idx[ad]) {
+					*early = append(*early, map[string]any{"kind": "early-timer", "a": ad, "index": c.idx[ad], "waited_ms": float64(waited) / 1e6})
+				}
+			}
+			c.pending[ad] = false
+			p := h.project()
+			// arrivals are logged one at a time: the gate count right after this one
+			p.Gate[ad] = c.seen[ad] - c.gone[ad]
+			for _, o := range h.addrs {
+				if o != ad {
+					p.Gate[o] = -1
+				}
+			}
+			lg.put("TimerFire", map[string]any{"a": ad, "i": 1}, zzvRcSt(p), true)
+		}
+	}
+}
+
+func (c *zzvRcClock) quiet(lg *zzvRcLog, early *[]map[string]any) {
+	h := c.h
+	for _, ad := range h.addrs {
+		if !c.pending[ad] {
+			continue
+		}
+		safeUntil := h.armedAt[ad].Add(h.lower(c.idx[ad]) - 3*time.Millisecond)
+		if time.Now().Before(safeUntil) {
+			continue
+		}
+		// wait for the arrival (if the code armed nothing, give up after a generous time)
+		have := c.gone[ad] + len(h.blocked[ad])
+		h.pump(h.maxDelay()+400*time.Millisecond, func() bool { return c.gone[ad]+len(h.blocked[ad]) > have })
+		c.flush(lg, early)
+		c.pending[ad] = false
+	}
+	c.flush(lg, early)
+}
+
+func TestZZVReconTrace(t *testing.T) {
+	ntraces := zzvEnvInt("ZZV_TRACES", 40)
+	nops := zzvEnvInt("ZZV_OPS", 40)
+	par := zzvEnvInt("ZZV_PAR", 16)
+	capIdx := zzvEnvInt("ZZV_CAP", 2)
+	maxAtt := zzvEnvInt("ZZV_MAXATT", 0)
+	initialMs := zzvEnvInt("ZZV_INITIAL_MS", 20)
+	addrs := []string{"a", "b"}
+	seed := zzvSeed()
+	logs := make([]*zzvRcLog, ntraces)
+	directs := make([][]map[string]any, ntraces)
+	var next int64 = -1
+	var wg sync.WaitGroup
+	for w := 0; w < par; w++ {
+		wg.Add(1)
+		go func() {
+			defer wg.Done()
+			for {
+				ti := int(atomic.AddInt64(&next, 1))
+				if ti >= ntraces {
+					return
+				}
+				rng := mrand.New(mrand.NewSource(seed*1000003 + int64(ti)))
+				cfg := zzvRcConfig(initialMs, capIdx, maxAtt, 0.2)
+				h := zzvRcNew(addrs, cfg, capIdx)
+				lg := &zzvRcLog{}
+				var direct []map[string]any
+				c := &zzvRcClock{h: h, pending: map[string]bool{}, idx: map[string]int{}, seen: map[string]int{}, gone: map[string]int{}}
+				lg.put("Reset", nil, zzvRcSt(h.project()), false)
+				schedule := func(name, ad string, call func()) {
+					wasPaused := h.r.IsPaused()
+					idxBefore := h.project().Idx[ad]
+					before := time.Now()
+					call()
+					p := h.project()
+					res := "armed"
+					if wasPaused || p.Closed {
+						res = "ignored"
+					} else if !p.Ex[ad] {
+						res = "exhausted"
+					}
+					if res == "armed" {
+						c.armed(ad, before, idxBefore)
+					} else if res == "exhausted" {
+						c.pending[ad] = false
+					}
+					lg.put(name, map[string]any{"a": ad, "res": res}, zzvRcSt(p), true)
+				}
+				for op := 0; op < nops; op++ {
+					c.quiet(lg, &direct)
+					ad := addrs[rng.Intn(len(addrs))]
+					r := rng.Intn(100)
+					switch {
+					case r < 22:
+						schedule("Schedule", ad, func() { h.r.Schedule(ad) })
+					case r < 32 && len(h.infl[ad]) > 0:
+						at := h.infl[ad][len(h.infl[ad])-1]
+						schedule("CbSchedule", ad, func() { at.cmd <- "schedule"; <-at.ack })
+					case r < 46:
+						// let time pass so that timers fire
+						h.pump(time.Duration(5+rng.Intn(70))*time.Millisecond, func() bool { return false })
+					case r < 66 && len(h.blocked[ad]) > 0:
+						i := 1 + rng.Intn(len(h.blocked[ad]))
+						e := h.blocked[ad][i-1]
+						h.blocked[ad] = append(append([]*zzvRcEntry{}, h.blocked[ad][:i-1]...), h.blocked[ad][i:]...)
+						c.gone[ad]++
+						exits := h.exits
+						h.newAtt = nil
+						close(e.release)
+						if !h.pump(10*time.Second, func() bool { return h.newAtt != nil || h.exits > exits }) {
+							direct = append(direct, map[string]any{"kind": "infra", "detail": "released goroutine neither began nor returned"})
+							break
+						}
+						res := "skip"
+						if h.newAtt != nil {
+							res = "begin"
+							if h.newAtt.paused {
+								direct = append(direct, map[string]any{"kind": "begin-while-paused", "a": ad, "trace": ti, "op": op})
+							}
+							h.infl[ad] = append(h.infl[ad], h.newAtt)
+							h.newAtt = nil
+						}
+						lg.put("Release", map[string]any{"a": ad, "i": i, "res": res}, zzvRcSt(h.project()), true)
+					case r < 82 && len(h.infl[ad]) > 0:
+						j := 1 + rng.Intn(len(h.infl[ad]))
+						at := h.infl[ad][j-1]
+						h.infl[ad] = append(append([]*zzvRcAttempt{}, h.infl[ad][:j-1]...), h.infl[ad][j:]...)
+						ok := rng.Intn(4) == 0
+						exits := h.exits
+						idxBefore := h.project().Idx[ad]
+						before := time.Now()
+						if ok {
+							at.cmd <- "ok"
+						} else {
+							at.cmd <- "fail"
+						}
+						if !h.pump(10*time.Second, func() bool { return h.exits > exits }) {
+							direct = append(direct, map[string]any{"kind": "infra", "detail": "attempt did not return"})
+							break
+						}
+						p := h.project()
+						if !ok && p.Ex[ad] && !p.Paused {
+							c.armed(ad, before, idxBefore) // it may have re-armed (the spec decides)
+						} else if !p.Ex[ad] {
+							c.pending[ad] = false
+						}
+						lg.put("AttemptEnd", map[string]any{"a": ad, "j": j, "ok": ok}, zzvRcSt(p), true)
+					case r < 88:
+						h.r.Pause()
+						for _, x := range addrs {
+							c.pending[x] = false
+						}
+						lg.put("Pause", nil, zzvRcSt(h.project()), true)
+					case r < 95:
+						h.r.Resume()
+						lg.put("Resume", nil, zzvRcSt(h.project()), true)
+					case r < 98:
+						h.r.Cancel(ad)
+						c.pending[ad] = false
+						lg.put("Cancel", map[string]any{"a": ad}, zzvRcSt(h.project()), true)
+					default:
+						h.r.ResetAll()
+						for _, x := range addrs {
+							c.pending[x] = false
+						}
+						lg.put("ResetAll", nil, zzvRcSt(h.project()), true)
+					}
+				}
+				// let everything that is still armed fire and release it, so that stray timers and what they do
+				// show up in the trace
+				h.pump(h.maxDelay()+60*time.Millisecond, func() bool { return false })
+				c.flush(lg, &direct)
+				for _, ad := range addrs {
+					for len(h.blocked[ad]) > 0 {
+						e := h.blocked[ad][0]
+						h.blocked[ad] = h.blocked[ad][1:]
+						c.gone[ad]++
+						exits := h.exits
+						h.newAtt = nil
+						close(e.release)
+						h.pump(10*time.Second, func() bool { return h.newAtt != nil || h.exits > exits })
+						res := "skip"
+						if h.newAtt != nil {
+							res = "begin"
+							if h.newAtt.paused {
+								direct = append(direct, map[string]any{"kind": "begin-while-paused", "a": ad, "trace": ti, "op": "end"})
+							}
+							h.infl[ad] = append(h.infl[ad], h.newAtt)
+							h.newAtt = nil
+						}
+						lg.put("Release", map[string]any{"a": ad, "i": 1, "res": res}, zzvRcSt(h.project()), true)
+					}
+				}
+				h.close()
+				logs[ti], directs[ti] = lg, direct
+			}
+		}()
+	}
+	wg.Wait()
+	if os.Getenv("ZZV_CORRUPT") == "trace" { // binding self-test: damage one logged field
+		lg := logs[len(logs)/2]
+		for i := len(lg.lines) / 2; i < len(lg.lines); i++ {
+			if lg.lines[i]["cmp"] == true {
+				st := lg.lines[i]["st"].(map[string]any)
+				att := st["att"].(map[string]int)
+				st["att"] = map[string]int{"a": att["a"] + 1, "b": att["b"]}
+				break
+			}
+		}
+	}
+	events := zzvRcWrite(t, logs)
+	nd := 0
+	for _, ds := range directs {
+		for _, d := range ds {
+			if nd < 4 {
+				zzvEmit("direct", d)
+			}
+			nd++
+		}
+	}
+	var samples []map[string]any
+	if len(logs) > 0 && len(logs[0].lines) > 7 {
+		samples = logs[0].lines[1:7]
+	}
+	zzvEmit("summary", map[string]any{"traces": ntraces, "events": events, "direct_violations": nd, "samples": samples})
+}
+
+// ---- the real Manager against a dead address -----------------------------------------------------------------------
+
+// zzvDeadTransport: every Dial announces itself and waits until the harness lets it fail.
+type zzvDeadTransport struct {
+	gate chan chan error
+	quit chan struct{}
+}
+
+func (d *zzvDeadTransport) Dial(ctx context.Context, addr string, opts transport.DialOptions) (transport.PeerConn, error) {
+	verdict := make(chan error, 1)
+	select {
+	case d.gate <- verdict:
+	case <-d.quit:
+		return nil, errors.New("zzv: dead address")
+	}
+	select {
+	case err := <-verdict:
+		return nil, err
+	case <-d.quit:
+		return nil, errors.New("zzv: dead address")
+	}
+}
+
+func (d *zzvDeadTransport) Listen(addr string, opts transport.ListenOptions) (transport.Listener, error) {
+	return nil, errors.New("zzv: not a listener")
+}
+func (d *zzvDeadTransport) Type() transport.TransportType { return transport.TransportWebSocket }
+func (d *zzvDeadTransport) Close() error                  { return nil }
+
+// TestZZVReconManager drives the real Manager: Connect to a persistent peer fails; K reconnect attempts;
+// DisconnectAll (= Pause) while the next dial is in flight, then that dial fails; nothing may start while paused;
+// ReconnectAll (= ResetAll, Resume, a dial that fails, Schedule twice); two more attempts; settle.
+// In the trace the address is "a"; the manager's own callback is the attempt (its Schedule call inside
+// connectWithTransport is logged as CbSchedule when the dial fails).
+func TestZZVReconManager(t *testing.T) {
+	rounds := zzvEnvInt("ZZV_ROUNDS", 2)
+	k := zzvEnvInt("ZZV_K", 4)
+	initialMs := zzvEnvInt("ZZV_INITIAL_MS", 20)
+	capIdx := zzvEnvInt("ZZV_CAP", 3)
+	const realAddr = "dead.example:1"
+	var logs []*zzvRcLog
+	var direct []map[string]any
+	var gaps []map[string]any
+	for round := 0; round < rounds; round++ {
+		cfg := zzvRcConfig(initialMs, capIdx, 0, 0.2)
+		dt := &zzvDeadTransport{gate: make(chan chan error), quit: make(chan struct{})}
+		id, _ := identity.NewAgentID()
+		mc := DefaultManagerConfig(id, dt)
+		mc.ReconnectConfig = cfg
+		mc.HandshakeTimeout = 5 * time.Second
+		m := NewManager(mc)
+		h := zzvRcAdopt(m.reconnector, []string{realAddr}, cfg, capIdx)
+		m.AddPeer(PeerInfo{Address: realAddr, Persistent: true})
+		lg := &zzvRcLog{}
+		logs = append(logs, lg)
+		bad := func(kind, detail string) {
+			direct = append(direct, map[string]any{"kind": kind, "detail": detail, "round": round})
+		}
+		st := func() map[string]any {
+			p := h.project()
+			q := zzvRcReal{Paused: p.Paused, Closed: p.Closed, Ex: map[string]bool{"a": p.Ex[realAddr]}, Att: map[string]int{"a": p.Att[realAddr]},
+				Idx: map[string]int{"a": p.Idx[realAddr]}, Gate: map[string]int{"a": p.Gate[realAddr]}, Infl: map[string]int{"a": -1}}
+			return zzvRcSt(q)
+		}
+		waitDial := func(d time.Duration) chan error {
+			select {
+			case v := <-dt.gate:
+				return v
+			case <-time.After(d):
+				return nil
+			}
+		}
+		refused := errors.New("zzv: connection refused")
+		lg.put("Reset", nil, st(), false)
+
+		// one reconnect attempt up to the point where the manager dials; returns the dial's verdict channel
+		begin := func(label string, idx int) chan error {
+			if !h.pump(h.maxDelay()+5*time.Second, func() bool { return len(h.blocked[realAddr]) >= 1 }) {
+				bad("timer-missing", "no reconnect timer fired ("+label+")")
+				return nil
+			}
+			e := h.blocked[realAddr][0]
+			waited := e.at.Sub(h.armedAt[realAddr])
+			gaps = append(gaps, map[string]any{"round": round, "attempt": label, "index": idx, "waited_ms": float64(waited) / 1e6,
+				"nominal_ms": float64(h.ladder[idx]) / 1e6})
+			if waited < h.lower(idx) {
+				bad("early-timer", fmt.Sprintf("%s: retry fired after %v, less than %v (backoff index %d)", label, waited, h.lower(idx), idx))
+			}
+			lg.put("TimerFire", map[string]any{"a": "a", "i": 1}, st(), true)
+			h.blocked[realAddr] = h.blocked[realAddr][1:]
+			exits := h.exits
+			close(e.release)
+			var v chan error
+			deadline := time.Now().Add(5 * time.Second)
+			for v == nil && time.Now().Before(deadline) {
+				select {
+				case v = <-dt.gate:
+				case <-time.After(5 * time.Millisecond):
+					h.drainNow()
+					if h.exits > exits {
+						deadline = time.Now() // the goroutine returned without dialing
+					}
+				}
+			}
+			if v == nil {
+				lg.put("Release", map[string]any{"a": "a", "i": 1, "res": "skip"}, st(), true)
+				return nil
+			}
+			if m.IsPaused() {
+				bad("begin-while-paused", label+": the manager dialed while reconnection was paused")
+			}
+			lg.put("Release", map[string]any{"a": "a", "i": 1, "res": "begin"}, st(), true)
+			return v
+		}
+		// the dial fails: connectWithTransport calls Schedule (CbSchedule), then the reconnector's second section
+		end := func(v chan error) {
+			exits := h.exits
+			before := time.Now()
+			v <- refused
+			if !h.pump(10*time.Second, func() bool { return h.exits > exits }) {
+				t.Fatalf("zzv: attempt did not return")
+			}
+			h.armedAt[realAddr] = before
+			lg.put("CbSchedule", map[string]any{"a": "a"}, st(), false)
+			lg.put("AttemptEnd", map[string]any{"a": "a", "j": 1, "ok": false}, st(), true)
+		}
+
+		// 1. the initial Connect fails -> Schedule
+		connErr := make(chan error, 1)
+		before := time.Now()
+		go func() { _, err := m.Connect(context.Background(), realAddr); connErr <- err }()
+		v := waitDial(5 * time.Second)
+		if v == nil {
+			t.Fatalf("zzv: initial dial did not happen")
+		}
+		v <- refused
+		<-connErr
+		h.armedAt[realAddr] = before
+		lg.put("Schedule", map[string]any{"a": "a", "res": "armed"}, st(), true)
+
+		// 2. k attempts; the last one stays in flight
+		var inflight chan error
+		alive := true
+		for n := 0; n < k && alive; n++ {
+			idx := n
+			if idx > capIdx {
+				idx = capIdx
+			}
+			inflight = begin(fmt.Sprintf("retry %d", n), idx)
+			if inflight == nil {
+				alive = false
+				break
+			}
+			if n < k-1 {
+				end(inflight)
+				inflight = nil
+			}
+		}
+		if alive && inflight != nil {
+			// 3. sleep while the dial is in flight, then the dial fails
+			m.DisconnectAll()
+			lg.put("Pause", nil, st(), true)
+			end(inflight)
+			h.pump(h.maxDelay()+80*time.Millisecond, func() bool { return len(h.blocked[realAddr]) > 0 })
+			if len(h.blocked[realAddr]) > 0 {
+				// a timer fired while paused; it is a violation if it dials (begin() records that)
+				if v := begin("while paused", 0); v != nil {
+					v <- refused
+				}
+				alive = false
+			}
+		}
+		if alive {
+			// 4. wake up
+			done := make(chan struct{})
+			before := time.Now()
+			go func() { m.ReconnectAll(context.Background()); close(done) }()
+			v := waitDial(5 * time.Second)
+			if v == nil {
+				t.Fatalf("zzv: ReconnectAll did not dial")
+			}
+			lg.put("ResetAll", nil, st(), false)
+			lg.put("Resume", nil, st(), true)
+			v <- refused
+			<-done
+			h.armedAt[realAddr] = before
+			lg.put("Schedule", map[string]any{"a": "a", "res": "armed"}, st(), false)
+			lg.put("Schedule", map[string]any{"a": "a", "res": "armed"}, st(), true)
+			for n := 0; n < 2; n++ {
+				v := begin(fmt.Sprintf("after wake %d", n), n)
+				if v == nil {
+					break
+				}
+				end(v)
+			}
+		}
+		// 5. settle: every timer that still fires is logged; the spec has exactly one pending
+		h.pump(h.maxDelay()+80*time.Millisecond, func() bool { return len(h.blocked[realAddr]) > 1 })
+		h.drainNow()
+		nblocked := len(h.blocked[realAddr])
+		for i := 0; i < nblocked; i++ {
+			p := st()
+			p["gate"] = map[string]int{"a": i + 1}
+			lg.put("TimerFire", map[string]any{"a": "a", "i": 1}, p, true)
+		}
+		for i := 0; i < nblocked; i++ {
+			e := h.blocked[realAddr][0]
+			h.blocked[realAddr] = h.blocked[realAddr][1:]
+			close(e.release)
+			v := waitDial(400 * time.Millisecond)
+			res := "skip"
+			if v != nil {
+				res = "begin"
+				if i >= 1 {
+					bad("extra-attempt", "two reconnect timers were pending for one address (Schedule inside the manager's callback and the reconnector's own re-arm) and both dialed")
+				}
+				v <- refused
+			}
+			lg.put("Release", map[string]any{"a": "a", "i": 1, "res": res}, st(), false)
+		}
+		close(dt.quit)
+		h.close()
+		m.Close()
+	}
+	events := zzvRcWrite(t, logs)
+	for i, d := range direct {
+		if i < 6 {
+			zzvEmit("direct", d)
+		}
+	}
+	zzvEmit("summary", map[string]any{"rounds": rounds, "events": events, "direct_violations": len(direct), "gaps": gaps,
+		"samples": logs[0].lines[1:9]})
+}
